@@ -127,7 +127,8 @@ Proof.
     rewrite (step_fact kk pv btw nv0 Hkk Hpv Hb1 Hb2 Hnv0).
     set (pv1 := pv * 2 ^ btw + nv0).
     assert (Hpv1 : pv1 < 2 ^ (kk + btw)).
-    { unfold pv1. rewrite N.pow_add_r. nia. }
+    { unfold pv1. rewrite N.pow_add_r.
+      assert ((pv + 1) * 2 ^ btw <= 2 ^ kk * 2 ^ btw) by (apply N.mul_le_mono_r; lia). lia. }
     (* bits identity for this step *)
     assert (Hbits : bitsof (k + N.to_nat btw) pv1 = bitsof k pv ++ bitsof (N.to_nat btw) (val / 2 ^ (bits - btw))).
     { rewrite bitsof_split, N2Nat.id. f_equal.
